@@ -17,7 +17,10 @@ EXTENDS Integers, Sequences, FiniteSets, TLC, Json
 Cert(id, subj, key, issuer, signer) ==
   [id |-> id, subj |-> subj, key |-> key, issuer |-> issuer, signer |-> signer,      \* signer: key that made the signature
    ca |-> TRUE, pathlen |-> -1, certsign |-> TRUE, nb |-> 0, na |-> 10,              \* validity window [nb, na], time unit abstract
-   permitted |-> {}, eku |-> {}, dns |-> {}, ip |-> {}, crit |-> FALSE, cn |-> ""]
+   permitted |-> {}, eku |-> {}, dns |-> {}, ip |-> {}, crit |-> FALSE, cn |-> "",
+   \* subject key identifier carried by the certificate: its children name skid(key) as authority key identifier.
+   \* The identifiers are hints for finding candidates (RFC 5280 4.2.1.1): they do not enter the reference validator.
+   ski |-> "own"]
 Leaf(id, subj, key, issuer, signer, dns) ==
   [Cert(id, subj, key, issuer, signer) EXCEPT !.ca = FALSE, !.certsign = FALSE, !.dns = dns, !.eku = {"server"}]
 
@@ -106,17 +109,21 @@ Diamond ==
 Templates == {Linear(0), Linear(1), Linear(2), Cross, Loop, Diamond}
 
 \* --- knobs: one change to one certificate or to the query ---
-CertKnobs == {"none", "expired", "notyet", "notca", "nocertsign", "pathlen0", "pathlen1", "forged", "permit_ok", "permit_other", "crit"}
+CertKnobs == {"none", "expired", "notyet", "notca", "nocertsign", "pathlen0", "pathlen1", "forged", "permit_ok", "permit_other", "crit",
+              "noski", "otherski"}      \* the issuer certificate in the pool was re-issued without / with another key identifier
 ApplyC(c, k) == CASE k = "expired" -> [c EXCEPT !.na = 3] [] k = "notyet" -> [c EXCEPT !.nb = 7]
                   [] k = "notca" -> [c EXCEPT !.ca = FALSE] [] k = "nocertsign" -> [c EXCEPT !.certsign = FALSE]
                   [] k = "pathlen0" -> [c EXCEPT !.pathlen = 0] [] k = "pathlen1" -> [c EXCEPT !.pathlen = 1]
                   [] k = "forged" -> [c EXCEPT !.signer = "kForged"]
                   [] k = "permit_ok" -> [c EXCEPT !.permitted = {"example.com"}] [] k = "permit_other" -> [c EXCEPT !.permitted = {"other.org"}]
-                  [] k = "crit" -> [c EXCEPT !.crit = TRUE] [] OTHER -> c
+                  [] k = "crit" -> [c EXCEPT !.crit = TRUE]
+                  [] k = "noski" -> [c EXCEPT !.ski = "none"] [] k = "otherski" -> [c EXCEPT !.ski = "other"] [] OTHER -> c
 \* knobs that make sense for a certificate: leaves have no CA knobs
 KnobsFor(c) == IF c.ca THEN CertKnobs \ {"crit"} ELSE {"none", "expired", "notyet", "forged", "crit"}
+\* "unknown" stands for an extended key usage the library has no name for
 QueryKnobs == {"q_none", "time_before", "time_after", "name_case", "name_dot", "name_other", "name_empty", "use_client", "use_any",
-               "leaf_wild_ok", "leaf_wild_deep", "leaf_wild_mid", "leaf_eku_client", "leaf_eku_none", "leaf_ip_ok", "leaf_ip_bad"}
+               "leaf_wild_ok", "leaf_wild_deep", "leaf_wild_mid", "leaf_eku_client", "leaf_eku_none", "leaf_ip_ok", "leaf_ip_bad",
+               "leaf_eku_unknown", "leaf_eku_server_unknown", "leaf_eku_unknown_use_any"}
 ApplyQ(sc, k) ==
   LET L == sc.certs[sc.leaf]
       setL(c) == [sc EXCEPT !.certs = [sc.certs EXCEPT ![sc.leaf] = c]] IN
@@ -128,6 +135,8 @@ ApplyQ(sc, k) ==
     [] k = "leaf_wild_deep" -> [setL([L EXCEPT !.dns = {"*.example.com"}]) EXCEPT !.q.name = "b.a.example.com"]
     [] k = "leaf_wild_mid" -> setL([L EXCEPT !.dns = {"a.*.com"}])
     [] k = "leaf_eku_client" -> setL([L EXCEPT !.eku = {"client"}]) [] k = "leaf_eku_none" -> setL([L EXCEPT !.eku = {}])
+    [] k = "leaf_eku_unknown" -> setL([L EXCEPT !.eku = {"unknown"}]) [] k = "leaf_eku_server_unknown" -> setL([L EXCEPT !.eku = {"server", "unknown"}])
+    [] k = "leaf_eku_unknown_use_any" -> [setL([L EXCEPT !.eku = {"unknown"}]) EXCEPT !.q.usages = {"any"}]
     [] k = "leaf_ip_ok" -> [setL([L EXCEPT !.ip = {"10.0.0.1"}, !.dns = {}]) EXCEPT !.q.name = "10.0.0.1", !.q.kind = "ip"]
     [] k = "leaf_ip_bad" -> [setL([L EXCEPT !.ip = {"10.0.0.2"}, !.dns = {}]) EXCEPT !.q.name = "10.0.0.1", !.q.kind = "ip"]
     [] OTHER -> sc
